@@ -64,6 +64,7 @@ REV=[
  ("a failed build left unlinked refs in the schema cache",["C18"],"R-ERR/rollback"),
  ("deeply nested array values exhausted the stack",["C11","C07"],"R-TERM/T-depth"),
  ("files of neighbouring packages were loaded into a dependency package",["C14","C02"],"R-DET/N5"),
+ ("repeated property names were accepted when reflecting a message",["C18"],"R-ERR/E4u"),
 ]
 n=0
 for sub,props,expect in REV:
